@@ -118,6 +118,7 @@ def run(res, tier, seed, shard, nshards):
     from ..common import from_us
     from ..gen import BASE_US
 
+    insitu_mismatches = []
     db = TinyFlux(storage=MemoryStorage)
     us = [BASE_US + d for d in (0, 0, 1, 5, 5, 5, 9)]
     db.insert_multiple([Point(time=from_us(u)) for u in us])
@@ -137,13 +138,19 @@ def run(res, tier, seed, shard, nshards):
             want = sum(1 for a in us if f(a))
             res.count("insitu.time_queries")
             if got != want:
-                res.violate(Violation("C18", "insitu-time-search", {"probe_us": probe, "expected": want, "observed": got}, replay={"probe_us": probe}))
+                insitu_mismatches.append((probe, want, got))
     broken = contracts.drain(res)
     for b in broken:
         res.violate(Violation("C18", "contract-" + b[0], {"list": b[1], "probe": b[2], "observed": b[3]}, replay={"list": b[1], "probe": b[2], "fn": b[0]}))
     insitu = sum(v for k, v in res.counters.items() if k.startswith("contract_evals.find_"))
     res.counters["insitu_contract_evals"] = insitu
-    res.require("insitu_contract_evals")
+    if insitu:
+        # the index really answers time queries through the helpers: a wrong answer there is theirs
+        for probe, want, got in insitu_mismatches[:3]:
+            res.violate(Violation("C18", "insitu-time-search", {"probe_us": probe, "expected": want, "observed": got}, replay={"probe_us": probe}))
+    else:
+        # an index that does not call the helpers (informational stratum only; C18 is decided by the direct calls above)
+        res.count("insitu_skipped_index_does_not_call_the_helpers")
     res.require("direct.find_eq", 792 * 11)
     res.assumptions += [
         "probe values and list elements are mutually comparable numbers (no NaN)",
